@@ -8,6 +8,8 @@
     missing_debug_implementations,
     unused_imports,
     unsafe_code,
+    future_incompatible,
+    rust_2018_idioms,
     clippy::all
 )]
 
